@@ -56,7 +56,10 @@ func mintParamsStr(p minttypes.Params) string {
 // extremeMintParams: accepted or rejected by Validate — both sides must agree on the verdict and,
 // when accepted, on what BlockProvisions does (value or panic).
 func extremeMintParams(r *rand.Rand) minttypes.Params {
-	p := mintParamsFor(r)
+	return applyExtreme(mintParamsFor(r), r)
+}
+
+func applyExtreme(p minttypes.Params, r *rand.Rand) minttypes.Params {
 	switch r.Intn(7) {
 	case 5:
 		p.Phases[len(p.Phases)-1].YearCoefficient = sdkmath.LegacyMustNewDecFromStr("0.0001")
